@@ -214,11 +214,14 @@ def selftest(ctx, run):
 _seq = itertools.count(1)
 
 
-def run(ctx, cwd, args=(), env=None, timeout=120, fail=None):
-    """Like ctx.run_mockery, but safe to call from several threads (own trace-file counter)."""
+def run(ctx, cwd, args=(), env=None, timeout=120, fail=None, unset=()):
+    """Like ctx.run_mockery, but safe to call from several threads (own trace-file counter).
+    unset: environment variables the process must NOT see (e.g. HOME) -- removed after `env` is applied."""
     binp = ctx.mockery()
     tfile = ctx.scratch / f"ptrace-{next(_seq)}.ndjson"
     e = go_env(env)
+    for k in unset:
+        e.pop(k, None)
     e["VERIFHOOK_TRACE"] = str(tfile)
     if fail:
         e["VERIFHOOK_FAIL"] = fail
